@@ -211,9 +211,17 @@ Fixpoint ins_ok (fresh : bool) (k : kind) (p : path) {struct p} : bool :=
 
 (* Collection::merge(removed, original, false) as performed by CompactOptions::Maybe *)
 Definition maybe_ok_o (c : ocoll) (f : bytes) : bool :=
-  ccompat bytes_eqb union_compat (remove_known_o c f) c.
+  let c1 := match aget bytes_eqb (known c) f with
+            | Some child => set_known c (aset bytes_cmp (known c) f child)
+            | None => c
+            end in
+  ccompat bytes_eqb union_compat (remove_known_o c1 f) c1.
 Definition maybe_ok_a (c : acoll) (idx : nat) : bool :=
-  ccompat Nat.eqb union_compat (remove_shift c idx) c.
+  let c1 := match aget Nat.eqb (known c) idx with
+            | Some child => set_known c (aset Nat.compare (known c) idx child)
+            | None => c
+            end in
+  ccompat Nat.eqb union_compat (remove_shift c1 idx) c1.
 
 (* remove_shift moves only the entry at idx+1: it is right only if nothing is known beyond idx+1 *)
 Definition shift_ok (c : acoll) (idx : nat) : bool :=
